@@ -31,6 +31,7 @@ import time
 
 import numpy as np
 
+import il_corr
 from common import REPO, Driver, grid_tok, tok, untok, untok_exact
 
 PROP = "C05"
@@ -1514,6 +1515,10 @@ def run_corpus(r):
         r.tag("seam1:states-with-non-root-OVERestimate", stats.get("over_nonroot", 0))
 
 
+IL_PROGS = ["vsFindValueMin", "vsTreeMinimum", "vsTreeSuccessor", "vsLeftRotate", "vsRightRotate", "vsSearch", "vsQuery",
+            "vsInsert", "vsDelete"]
+
+
 def run(r):
     V()
     r.rule = ("terrains 2x2..15x15 (thorough 30x30) over small alphabets / plane+bumps / plateaus / dyadics / ints / flat / "
@@ -1530,6 +1535,10 @@ def run(r):
                       "`Inv holds in every reachable state` is checked on the generated runs, not proved for deletion (see design_notes/C05.md)"]
     quick = r.tier == "quick"
     run_corpus(r)
+    # layer T3: the nine programs generated statement by statement from the status-tree routines (Gen.IL.vs*, the
+    # subjects of the refinement theorems `generated_query_*`, `generated_rotations_*`, `generated_small_routines`)
+    # against the numba-compiled functions, on arrays reached by random insert / delete histories of the real code
+    il_corr.stream(r, IL_PROGS, 300 if quick else 3000)
     seam1(r, n_seq=10 if quick else 120, nops=120, pool=40)
     seam123(r, n_terr=60 if quick else 1000, maxs=9 if quick else 15, tree_level_every=6 if quick else 10)
     if not quick:
@@ -1567,7 +1576,14 @@ def search(r):
 
 
 def replay(r, body):
-    c = body["case"]
+    c = body.get("case")
+    if c is None or (isinstance(c, dict) and "prog" in c):
+        # a translator-validation case of layer T3 (`il:vs*`): recorded as a disagreement
+        ils = [c] if c is not None else [d["case"] for d in body.get("disagreements", [])
+                                         if str(d.get("stream", "")).startswith("il:")]
+        bad = sum(il_corr.replay_case(k) for k in ils)
+        print("still disagrees: il:" + ",".join(sorted({k["prog"] for k in ils})) if bad else "does not fail on the current tree")
+        return 1 if bad else 0
     if isinstance(c, dict) and "terrain" in c:
         c = c["terrain"]
     if isinstance(c, dict) and "ops" in c:
